@@ -177,6 +177,8 @@ let handle_line line =
       let zz s = z_of_int (int_of_string s) in
       let bit01 s = s = "1" in
       match cmd, args with
+      | x, _ when String.length x > 0 && x.[0] = '_' ->
+        Buffer.add_string out (Printf.sprintf "R %s ok\n" idx)   (* harness-only operation *)
       | "REG", [key; isrel; zs] -> run_op idx ws (ORegister (n key, bit01 isrel, bit01 zs)) ~creates:false
       | "NEW", [ids] -> run_op idx ws (ONew (nats ids)) ~creates:true
       | "NEWWITH", [cs] -> run_op idx ws (ONewWith (pairs cs)) ~creates:true
@@ -316,7 +318,12 @@ let () =
               Buffer.add_string out (Printf.sprintf "R %s model-cannot-follow %s\n" idx msg);
               (try (Hashtbl.find worlds (int_of_string (String.sub wtok 1 (String.length wtok - 1)))).dead <- true with _ -> ())
             | _ -> ())
-           | Not_found -> ()
+           | Not_found ->
+           (match String.split_on_char ' ' body with
+            | idx :: wtok :: _ ->
+              Buffer.add_string out (Printf.sprintf "R %s model-cannot-follow not-found\n" idx);
+              (try (Hashtbl.find worlds (int_of_string (String.sub wtok 1 (String.length wtok - 1)))).dead <- true with _ -> ())
+            | _ -> ())
        end
      done
    with End_of_file -> ());
